@@ -211,6 +211,11 @@ func cmdCheck(prop, tier string, rest []string) int {
 	}
 	var toReplay []pendingViol
 	knownPrinted := map[string]bool{}
+	type sampleSet struct {
+		h       harnessRef
+		samples []sym.SamplePath
+	}
+	var sampleSets []sampleSet
 	for _, h := range sel {
 		fn := eng.FindFunc(modPath()+"/"+h.PkgRel, h.Func)
 		if fn == nil {
@@ -222,6 +227,7 @@ func cmdCheck(prop, tier string, rest []string) int {
 			printHarness(hr)
 		}
 		ev.addHarness(hr)
+		sampleSets = append(sampleSets, sampleSet{h, hr.SampleTapes})
 		// inconclusive conditions: never green
 		for _, k := range sortedKeys(hr.Unsupported) {
 			inconclusive = append(inconclusive, fmt.Sprintf("%s: unsupported x%d: %s", h.Func, hr.Unsupported[k], k))
@@ -264,6 +270,52 @@ func cmdCheck(prop, tier string, rest []string) int {
 				continue
 			}
 			toReplay = append(toReplay, pendingViol{h: h, v: v})
+		}
+	}
+	// translator validation: replay sample paths natively; the same witnesses
+	// must be reached
+	if os.Getenv("GOSMT_NOSAMPLES") == "" {
+		dir := filepath.Join(verifDir, "replays", prop)
+		os.MkdirAll(dir, 0o755)
+		type samp struct {
+			h    harnessRef
+			want []string
+			path string
+		}
+		byPkg := map[string][]samp{}
+		for _, hs := range sampleSets {
+			for i, sp := range hs.samples {
+				tf := tapeFile{Harness: hs.h.Func, Tier: tn, Property: prop, Kind: "sample", PkgRel: hs.h.PkgRel, Tape: sp.Tape}
+				b, _ := json.MarshalIndent(tf, "", " ")
+				pth := filepath.Join(dir, fmt.Sprintf("sample-%s-%s-%d.json", hs.h.Func, tier, i))
+				os.WriteFile(pth, b, 0o644)
+				byPkg[hs.h.PkgRel] = append(byPkg[hs.h.PkgRel], samp{hs.h, sp.Reached, pth})
+			}
+		}
+		for pkgRel, ss := range byPkg {
+			var paths []string
+			for _, x := range ss {
+				paths = append(paths, x.path)
+			}
+			results, raw, err := replayTapes(all, pkgRel, paths, 300*time.Second, 8<<20)
+			if err != nil {
+				inconclusive = append(inconclusive, "sample replay failed: "+err.Error())
+				continue
+			}
+			for _, x := range ss {
+				r, ok := results[x.path]
+				if !ok {
+					inconclusive = append(inconclusive, fmt.Sprintf("%s: translator validation: no native result for %s (%s)", x.h.Func, x.path, lastLines(raw, 4)))
+					continue
+				}
+				ev.replays++
+				if r.Outcome != "ok" || !sameSet(r.Reached, x.want) {
+					inconclusive = append(inconclusive, fmt.Sprintf("%s: translator validation: native run of a sampled path gave outcome=%s %s reached=%v, engine reached=%v (tape %s)", x.h.Func, r.Outcome, r.Detail, r.Reached, x.want, x.path))
+				} else {
+					ev.samplesOK++
+					os.Remove(x.path)
+				}
+			}
 		}
 	}
 	// replay unexplained violations natively
@@ -443,6 +495,7 @@ type evidence struct {
 	knownMatched []string
 	inconclusive []string
 	unknown      int
+	samplesOK    int
 }
 
 func newEvidence(prop, tier string, seed int) *evidence {
@@ -535,9 +588,10 @@ func (e *evidence) write() error {
 			"bound_cuts":                    cuts,
 			"harnesses":                     e.harnesses,
 			"known_findings_matched":        e.knownMatched,
-			"inconclusive":                  e.inconclusive,
-			"exhaustive":                    false,
-			"explanation":                   "bounded symbolic execution of /repo's SSA (regenerated on this run) with z3; every assertion query is the negated property under the path condition",
+			"translator_validation_paths_replayed_ok": e.samplesOK,
+			"inconclusive": e.inconclusive,
+			"exhaustive":   false,
+			"explanation":  "bounded symbolic execution of /repo's SSA (regenerated on this run) with z3; every assertion query is the negated property under the path condition",
 		},
 		"assumptions": []string{
 			"bounds are those written in the harness (vhInt ranges, vhBytes lengths, loop/unwind limits); inputs outside them are not covered",
@@ -553,4 +607,20 @@ func (e *evidence) write() error {
 	dir := filepath.Join(verifDir, "evidence")
 	os.MkdirAll(dir, 0o755)
 	return os.WriteFile(filepath.Join(dir, e.prop+".json"), b, 0o644)
+}
+
+func sameSet(a, b []string) bool {
+	m := map[string]int{}
+	for _, x := range a {
+		m[x]++
+	}
+	for _, x := range b {
+		m[x]--
+	}
+	for _, v := range m {
+		if v != 0 {
+			return false
+		}
+	}
+	return true
 }
